@@ -82,6 +82,29 @@ def partials (f : FlowT) (d : Int) : List Nat → Nat
   | u :: v :: r => (if 0 < f.get v u ∧ f.get v u < d then 1 else 0) + partials f d (v :: r)
   | _ => 0
 
+/-- coverage bookkeeping of the mirror (not proof relevant): counters and the arcs whose flow has
+been cancelled (partly or fully) through their reverse residual arc so far -/
+structure Cov where
+  cancels   : Nat := 0
+  partials  : Nat := 0
+  repush    : Nat := 0                  -- forward pushes on an arc that was cancelled earlier
+  cancelled : List (Nat × Nat) := []
+
+/-- arcs of the path that push flow forward (`path_flow` exceeds the reverse flow) although flow
+on them was cancelled in an earlier augmentation -/
+def repushes (f : FlowT) (d : Int) (cancelled : List (Nat × Nat)) : List Nat → Nat
+  | u :: v :: r => (if f.get v u < d ∧ cancelled.contains (u, v) then 1 else 0) + repushes f d cancelled (v :: r)
+  | _ => 0
+
+/-- the arcs `(v, u)` whose flow this augmentation cancels through the residual arc `u → v` -/
+def cancelledBy (f : FlowT) : List Nat → List (Nat × Nat)
+  | u :: v :: r => (if 0 < f.get v u then [(v, u)] else []) ++ cancelledBy f (v :: r)
+  | _ => []
+
+def Cov.step (c : Cov) (f : FlowT) (d : Int) (p : List Nat) : Cov :=
+  ⟨c.cancels + Net.cancels f p, c.partials + Net.partials f d p, c.repush + repushes f d c.cancelled p,
+    cancelledBy f p ++ c.cancelled⟩
+
 /-- capacity of the cut (S, V \ S) on pooled capacities -/
 def cutCap (S : List Nat) : Int :=
   lsum (N.V.filter fun u => S.contains u) fun u =>
@@ -94,21 +117,22 @@ structure Out where
   augs    : Nat          -- `iterations`
   cancels : Nat
   pcancel : Nat          -- arcs with a partial cancellation (`0 < flow[v][u] < path_flow`)
+  repush  : Nat          -- forward pushes on an arc whose flow was cancelled earlier
   done    : Bool         -- false: fuel exhausted / `inf` path flow (never, by `ek_terminates`)
 
 def bfsFuel : Nat := 2 * N.V.length + 2
 
-def loop : Nat → FlowT → Int → Nat → Nat × Nat → Out
-  | 0, f, tot, k, c => ⟨f, tot, [], k, c.1, c.2, false⟩
+def loop : Nat → FlowT → Int → Nat → Cov → Out
+  | 0, f, tot, k, c => ⟨f, tot, [], k, c.cancels, c.partials, c.repush, false⟩
   | n + 1, f, tot, k, c =>
     match N.bfs f N.bfsFuel [N.s] [(N.s, [N.s])] with
     | (some p, _) =>
       match N.pathFlow f p none with
-      | some d => loop n (aug f d p) (tot + d) (k + 1) (c.1 + cancels f p, c.2 + partials f d p)
-      | none => ⟨f, tot, [], k, c.1, c.2, false⟩
-    | (none, vis) => ⟨f, tot, vis, k, c.1, c.2, true⟩
+      | some d => loop n (aug f d p) (tot + d) (k + 1) (c.step f d p)
+      | none => ⟨f, tot, [], k, c.cancels, c.partials, c.repush, false⟩
+    | (none, vis) => ⟨f, tot, vis, k, c.cancels, c.partials, c.repush, true⟩
 
-def maxFlow : Out := N.loop ((N.cutCap [N.s]).toNat + 1) [] 0 0 (0, 0)
+def maxFlow : Out := N.loop ((N.cutCap [N.s]).toNat + 1) [] 0 0 {}
 
 /-! ### Verified checker (T-spec side) -/
 
